@@ -7,8 +7,14 @@
 (*    ==pB==> copy-oids ==pC==> git cat-file --batch-check ==pD==>         *)
 (*    object parser --headerCh--> consumer                                 *)
 (*                                                                         *)
-(* rev-list reads ALL of its input before it writes anything (--stdin);    *)
-(* the other stages stream.  Either git command may die at any point.      *)
+(* rev-list reads ALL of its input before it writes anything (--stdin).    *)
+(* copy-oids writes through a bufio.Writer that go-pipe flushes when the    *)
+(* listing ends (or when 4096 bytes have gathered): with CopyBuffered =    *)
+(* TRUE it holds every line until rev-list's output has ended, which is    *)
+(* exactly what the code does for listings below 4 KB (and what the gated  *)
+(* replay of schedules relies on); with FALSE it forwards line by line,    *)
+(* the over-approximation for long listings (a flush may come at any line).*)
+(* Either git command may die at any point.                                *)
 (* The consumer reads headers until headerCh is closed, then asks the      *)
 (* pipeline how it ended (Wait) and only then looks at the feeder's error. *)
 (*                                                                         *)
@@ -23,7 +29,8 @@ EXTENDS Integers, Sequences, FiniteSets
 CONSTANTS NRoots,        \* roots fed to rev-list
           NObjs,         \* objects rev-list lists
           Cap,           \* capacity of each OS pipe
-          DropWaitError  \* TRUE: the consumer ignores the error of the final Wait()
+          DropWaitError, \* TRUE: the consumer ignores the error of the final Wait()
+          CopyBuffered   \* TRUE: copy-oids flushes only when the listing has ended
 
 VARIABLES
   fpc,            \* feeder: next root to send; NRoots+1 = about to close; NRoots+2 = done
@@ -31,7 +38,8 @@ VARIABLES
   pA, pAclosed,   \* stdin of rev-list
   rl, rlRead, rlOut,   \* rev-list: "reading" | "writing" | "ok" | "dead"; roots read; lines written
   pB, pBclosed,
-  cp,             \* copy-oids: "run" | "done" | "epipe"
+  cp,             \* copy-oids: "run" | "flushing" | "done" | "epipe"
+  cbuf,           \* copy-oids: lines held in its bufio.Writer
   pC, pCclosed,
   cf, cfOut,      \* cat-file --batch-check: "run" | "ok" | "dead"; headers written
   pD, pDclosed,
@@ -40,13 +48,13 @@ VARIABLES
   got,            \* headers the consumer received
   result          \* "none" | "ok" | "err"
 
-vars == <<fpc, rbuf, rstate, pA, pAclosed, rl, rlRead, rlOut, pB, pBclosed, cp, pC, pCclosed,
+vars == <<fpc, rbuf, rstate, pA, pAclosed, rl, rlRead, rlOut, pB, pBclosed, cp, cbuf, pC, pCclosed,
           cf, cfOut, pD, pDclosed, ps, hdrClosed, got, result>>
 
 Init ==
   /\ fpc = 1 /\ rbuf = <<>> /\ rstate = "run" /\ pA = <<>> /\ pAclosed = FALSE
   /\ rl = "reading" /\ rlRead = 0 /\ rlOut = 0 /\ pB = <<>> /\ pBclosed = FALSE
-  /\ cp = "run" /\ pC = <<>> /\ pCclosed = FALSE
+  /\ cp = "run" /\ cbuf = <<>> /\ pC = <<>> /\ pCclosed = FALSE
   /\ cf = "run" /\ cfOut = 0 /\ pD = <<>> /\ pDclosed = FALSE
   /\ ps = "run" /\ hdrClosed = FALSE /\ got = <<>> /\ result = "none"
 
@@ -56,82 +64,95 @@ U(S) == UNCHANGED S
 FeederSend ==
   /\ Running /\ fpc <= NRoots /\ rstate = "run"
   /\ rbuf' = Append(rbuf, fpc) /\ fpc' = fpc + 1
-  /\ U(<<rstate, pA, pAclosed, rl, rlRead, rlOut, pB, pBclosed, cp, pC, pCclosed, cf, cfOut, pD, pDclosed, ps, hdrClosed, got, result>>)
+  /\ U(<<rstate, pA, pAclosed, rl, rlRead, rlOut, pB, pBclosed, cp, cbuf, pC, pCclosed, cf, cfOut, pD, pDclosed, ps, hdrClosed, got, result>>)
 FeederClose ==
   /\ Running /\ fpc = NRoots + 1
   /\ fpc' = NRoots + 2 /\ rstate' = IF rstate = "run" THEN "flushing" ELSE rstate
-  /\ U(<<rbuf, pA, pAclosed, rl, rlRead, rlOut, pB, pBclosed, cp, pC, pCclosed, cf, cfOut, pD, pDclosed, ps, hdrClosed, got, result>>)
+  /\ U(<<rbuf, pA, pAclosed, rl, rlRead, rlOut, pB, pBclosed, cp, cbuf, pC, pCclosed, cf, cfOut, pD, pDclosed, ps, hdrClosed, got, result>>)
 RequestWrite ==
   /\ Running /\ rstate \in {"run", "flushing"} /\ rbuf # <<>>
   /\ IF rl \in {"ok", "dead"}
      THEN rstate' = "epipe" /\ U(<<rbuf, pA>>)
      ELSE Len(pA) < Cap /\ pA' = Append(pA, Head(rbuf)) /\ rbuf' = Tail(rbuf) /\ rstate' = rstate
-  /\ U(<<fpc, pAclosed, rl, rlRead, rlOut, pB, pBclosed, cp, pC, pCclosed, cf, cfOut, pD, pDclosed, ps, hdrClosed, got, result>>)
+  /\ U(<<fpc, pAclosed, rl, rlRead, rlOut, pB, pBclosed, cp, cbuf, pC, pCclosed, cf, cfOut, pD, pDclosed, ps, hdrClosed, got, result>>)
 RequestDone ==
   /\ Running /\ ~pAclosed /\ (rstate = "epipe" \/ (rstate = "flushing" /\ rbuf = <<>>))
   /\ pAclosed' = TRUE /\ rstate' = IF rstate = "flushing" THEN "done" ELSE rstate
-  /\ U(<<fpc, rbuf, pA, rl, rlRead, rlOut, pB, pBclosed, cp, pC, pCclosed, cf, cfOut, pD, pDclosed, ps, hdrClosed, got, result>>)
+  /\ U(<<fpc, rbuf, pA, rl, rlRead, rlOut, pB, pBclosed, cp, cbuf, pC, pCclosed, cf, cfOut, pD, pDclosed, ps, hdrClosed, got, result>>)
 
 \* rev-list: reads every root, then lists NObjs objects, then exits
 RevRead ==
   /\ Running /\ rl = "reading" /\ pA # <<>>
   /\ pA' = Tail(pA) /\ rlRead' = rlRead + 1
-  /\ U(<<fpc, rbuf, rstate, pAclosed, rl, rlOut, pB, pBclosed, cp, pC, pCclosed, cf, cfOut, pD, pDclosed, ps, hdrClosed, got, result>>)
+  /\ U(<<fpc, rbuf, rstate, pAclosed, rl, rlOut, pB, pBclosed, cp, cbuf, pC, pCclosed, cf, cfOut, pD, pDclosed, ps, hdrClosed, got, result>>)
 RevStartWriting ==
   /\ Running /\ rl = "reading" /\ pA = <<>> /\ pAclosed
   /\ rl' = "writing"
-  /\ U(<<fpc, rbuf, rstate, pA, pAclosed, rlRead, rlOut, pB, pBclosed, cp, pC, pCclosed, cf, cfOut, pD, pDclosed, ps, hdrClosed, got, result>>)
+  /\ U(<<fpc, rbuf, rstate, pA, pAclosed, rlRead, rlOut, pB, pBclosed, cp, cbuf, pC, pCclosed, cf, cfOut, pD, pDclosed, ps, hdrClosed, got, result>>)
 RevWrite ==
   /\ Running /\ rl = "writing" /\ rlOut < NObjs /\ Len(pB) < Cap
   /\ IF cp = "run" THEN pB' = Append(pB, rlOut + 1) /\ rlOut' = rlOut + 1 /\ rl' = rl
      ELSE rl' = "dead" /\ U(<<pB, rlOut>>)            \* SIGPIPE: the reader is gone
   /\ pBclosed' = (rl' = "dead")
-  /\ U(<<fpc, rbuf, rstate, pA, pAclosed, rlRead, cp, pC, pCclosed, cf, cfOut, pD, pDclosed, ps, hdrClosed, got, result>>)
+  /\ U(<<fpc, rbuf, rstate, pA, pAclosed, rlRead, cp, cbuf, pC, pCclosed, cf, cfOut, pD, pDclosed, ps, hdrClosed, got, result>>)
 RevExit ==
   /\ Running /\ rl = "writing" /\ rlOut = NObjs
   /\ rl' = "ok" /\ pBclosed' = TRUE
-  /\ U(<<fpc, rbuf, rstate, pA, pAclosed, rlRead, rlOut, pB, cp, pC, pCclosed, cf, cfOut, pD, pDclosed, ps, hdrClosed, got, result>>)
+  /\ U(<<fpc, rbuf, rstate, pA, pAclosed, rlRead, rlOut, pB, cp, cbuf, pC, pCclosed, cf, cfOut, pD, pDclosed, ps, hdrClosed, got, result>>)
 RevDie ==      \* the fault
   /\ Running /\ rl \in {"reading", "writing"}
   /\ rl' = "dead" /\ pBclosed' = TRUE
-  /\ U(<<fpc, rbuf, rstate, pA, pAclosed, rlRead, rlOut, pB, cp, pC, pCclosed, cf, cfOut, pD, pDclosed, ps, hdrClosed, got, result>>)
+  /\ U(<<fpc, rbuf, rstate, pA, pAclosed, rlRead, rlOut, pB, cp, cbuf, pC, pCclosed, cf, cfOut, pD, pDclosed, ps, hdrClosed, got, result>>)
 
-\* copy-oids: line by line
+\* copy-oids: reads line by line; writes through a buffer (see CopyBuffered)
 Copy ==
   /\ Running /\ cp = "run" /\ pB # <<>>
-  /\ IF cf = "run"
-     THEN Len(pC) < Cap /\ pC' = Append(pC, Head(pB)) /\ pB' = Tail(pB) /\ cp' = cp
-     ELSE cp' = "epipe" /\ U(<<pB, pC>>)
-  /\ pCclosed' = (cp' = "epipe")
+  /\ IF CopyBuffered
+     THEN cbuf' = Append(cbuf, Head(pB)) /\ pB' = Tail(pB) /\ U(<<cp, pC, pCclosed>>)
+     ELSE /\ IF cf = "run"
+             THEN Len(pC) < Cap /\ pC' = Append(pC, Head(pB)) /\ pB' = Tail(pB) /\ cp' = cp
+             ELSE cp' = "epipe" /\ U(<<pB, pC>>)
+          /\ pCclosed' = (cp' = "epipe") /\ U(cbuf)
   /\ U(<<fpc, rbuf, rstate, pA, pAclosed, rl, rlRead, rlOut, pBclosed, cf, cfOut, pD, pDclosed, ps, hdrClosed, got, result>>)
-CopyEOF ==
+CopyEOF ==      \* the listing has ended: flush what is held, then close
   /\ Running /\ cp = "run" /\ pB = <<>> /\ pBclosed
+  /\ cp' = "flushing"
+  /\ U(<<fpc, rbuf, rstate, pA, pAclosed, rl, rlRead, rlOut, pB, pBclosed, cbuf, pC, pCclosed, cf, cfOut, pD, pDclosed, ps, hdrClosed, got, result>>)
+CopyFlush ==
+  /\ Running /\ cp = "flushing" /\ cbuf # <<>>
+  /\ IF cf = "run"
+     THEN Len(pC) < Cap /\ pC' = Append(pC, Head(cbuf)) /\ cbuf' = Tail(cbuf) /\ cp' = cp
+     ELSE cp' = "epipe" /\ U(<<cbuf, pC>>)
+  /\ pCclosed' = (cp' = "epipe")
+  /\ U(<<fpc, rbuf, rstate, pA, pAclosed, rl, rlRead, rlOut, pB, pBclosed, cf, cfOut, pD, pDclosed, ps, hdrClosed, got, result>>)
+CopyDone ==
+  /\ Running /\ cp = "flushing" /\ cbuf = <<>>
   /\ cp' = "done" /\ pCclosed' = TRUE
-  /\ U(<<fpc, rbuf, rstate, pA, pAclosed, rl, rlRead, rlOut, pB, pBclosed, pC, cf, cfOut, pD, pDclosed, ps, hdrClosed, got, result>>)
+  /\ U(<<fpc, rbuf, rstate, pA, pAclosed, rl, rlRead, rlOut, pB, pBclosed, cbuf, pC, cf, cfOut, pD, pDclosed, ps, hdrClosed, got, result>>)
 
 \* cat-file --batch-check: one header per oid
 CatStep ==
   /\ Running /\ cf = "run" /\ pC # <<>> /\ Len(pD) < Cap
   /\ pD' = Append(pD, Head(pC)) /\ pC' = Tail(pC) /\ cfOut' = cfOut + 1
-  /\ U(<<fpc, rbuf, rstate, pA, pAclosed, rl, rlRead, rlOut, pB, pBclosed, cp, pCclosed, cf, pDclosed, ps, hdrClosed, got, result>>)
+  /\ U(<<fpc, rbuf, rstate, pA, pAclosed, rl, rlRead, rlOut, pB, pBclosed, cp, cbuf, pCclosed, cf, pDclosed, ps, hdrClosed, got, result>>)
 CatExit ==
   /\ Running /\ cf = "run" /\ pC = <<>> /\ pCclosed
   /\ cf' = "ok" /\ pDclosed' = TRUE
-  /\ U(<<fpc, rbuf, rstate, pA, pAclosed, rl, rlRead, rlOut, pB, pBclosed, cp, pC, pCclosed, cfOut, pD, ps, hdrClosed, got, result>>)
+  /\ U(<<fpc, rbuf, rstate, pA, pAclosed, rl, rlRead, rlOut, pB, pBclosed, cp, cbuf, pC, pCclosed, cfOut, pD, ps, hdrClosed, got, result>>)
 CatDie ==      \* the fault
   /\ Running /\ cf = "run"
   /\ cf' = "dead" /\ pDclosed' = TRUE
-  /\ U(<<fpc, rbuf, rstate, pA, pAclosed, rl, rlRead, rlOut, pB, pBclosed, cp, pC, pCclosed, cfOut, pD, ps, hdrClosed, got, result>>)
+  /\ U(<<fpc, rbuf, rstate, pA, pAclosed, rl, rlRead, rlOut, pB, pBclosed, cp, cbuf, pC, pCclosed, cfOut, pD, ps, hdrClosed, got, result>>)
 
 \* object parser -> consumer (rendezvous on the unbuffered channel)
 Deliver ==
   /\ Running /\ ps = "run" /\ pD # <<>>
   /\ got' = Append(got, Head(pD)) /\ pD' = Tail(pD)
-  /\ U(<<fpc, rbuf, rstate, pA, pAclosed, rl, rlRead, rlOut, pB, pBclosed, cp, pC, pCclosed, cf, cfOut, pDclosed, ps, hdrClosed, result>>)
+  /\ U(<<fpc, rbuf, rstate, pA, pAclosed, rl, rlRead, rlOut, pB, pBclosed, cp, cbuf, pC, pCclosed, cf, cfOut, pDclosed, ps, hdrClosed, result>>)
 ParserEOF ==
   /\ Running /\ ps = "run" /\ pD = <<>> /\ pDclosed
   /\ ps' = "done" /\ hdrClosed' = TRUE
-  /\ U(<<fpc, rbuf, rstate, pA, pAclosed, rl, rlRead, rlOut, pB, pBclosed, cp, pC, pCclosed, cf, cfOut, pD, pDclosed, got, result>>)
+  /\ U(<<fpc, rbuf, rstate, pA, pAclosed, rl, rlRead, rlOut, pB, pBclosed, cp, cbuf, pC, pCclosed, cf, cfOut, pD, pDclosed, got, result>>)
 
 WaitError == rl = "dead" \/ cf = "dead"
 
@@ -140,15 +161,15 @@ ConsumerEnd ==
   /\ Running /\ hdrClosed
   /\ IF WaitError /\ ~DropWaitError THEN result' = "err"
      ELSE fpc = NRoots + 2 /\ result' = "ok"         \* err = <-errChan: the feeder has finished
-  /\ U(<<fpc, rbuf, rstate, pA, pAclosed, rl, rlRead, rlOut, pB, pBclosed, cp, pC, pCclosed, cf, cfOut, pD, pDclosed, ps, hdrClosed, got>>)
+  /\ U(<<fpc, rbuf, rstate, pA, pAclosed, rl, rlRead, rlOut, pB, pBclosed, cp, cbuf, pC, pCclosed, cf, cfOut, pD, pDclosed, ps, hdrClosed, got>>)
 
 Next == FeederSend \/ FeederClose \/ RequestWrite \/ RequestDone \/ RevRead \/ RevStartWriting \/ RevWrite
-        \/ RevExit \/ RevDie \/ Copy \/ CopyEOF \/ CatStep \/ CatExit \/ CatDie \/ Deliver \/ ParserEOF
+        \/ RevExit \/ RevDie \/ Copy \/ CopyEOF \/ CopyFlush \/ CopyDone \/ CatStep \/ CatExit \/ CatDie \/ Deliver \/ ParserEOF
         \/ ConsumerEnd
 
 Fair == /\ WF_vars(FeederSend) /\ WF_vars(FeederClose) /\ WF_vars(RequestWrite) /\ WF_vars(RequestDone)
         /\ WF_vars(RevRead) /\ WF_vars(RevStartWriting) /\ WF_vars(RevWrite) /\ WF_vars(RevExit)
-        /\ WF_vars(Copy) /\ WF_vars(CopyEOF) /\ WF_vars(CatStep) /\ WF_vars(CatExit)
+        /\ WF_vars(Copy) /\ WF_vars(CopyEOF) /\ WF_vars(CopyFlush) /\ WF_vars(CopyDone) /\ WF_vars(CatStep) /\ WF_vars(CatExit)
         /\ WF_vars(Deliver) /\ WF_vars(ParserEOF) /\ WF_vars(ConsumerEnd)
 Spec == Init /\ [][Next]_vars /\ Fair
 
